@@ -14,14 +14,14 @@ from __future__ import annotations
 
 import ast
 
-from ..absint import Interp, Sym, StreamV, BytesV, Raised, explore, show, Lin
-from ..bits import Bits
+from ..absint import Interp, Sym, StreamV, BytesV, Raised, explore, show, Lin, is_exact
+from ..bits import Bits, bits_relation
 from ..consts import Folder
 from ..model import DEX, AnalysisError
 
 
 def _hooks(m):
-    return {"inline_funcs": {"get_byte", "get_sbyte", "readuleb128", "readsleb128", "readuleb128p1"}}
+    return {"inline_funcs": {"*module*"}}
 
 
 def _spec_value(nbytes, signed, asg):
@@ -118,6 +118,10 @@ def _check_reader(ctx, repo, folder, m, f, signed, p1):
                       "%s yields %s; the specification says uleb128 - 1 = (%s) - 1" % (f.qualname, show(got)[:200], exp.describe()),
                       witness=_wit(asg), detail="= (%s) - 1" % exp.describe())
             continue
+        if not is_exact(got):
+            gb = got.subst(asg) if isinstance(got, Bits) else None
+            if gb is None or bits_relation(gb, exp) != "different":
+                raise AnalysisError("%s: the value on the %d-byte path leaves the bit domain (%s); the code uses arithmetic the interpreter cannot follow exactly" % (f.qualname, n, show(got)[:200]))
         ok = isinstance(got, (Bits, int)) and (Bits.const(got) if isinstance(got, int) else got.subst(asg)) == exp
         ctx.check("value", inst, ok, f, "%d-byte %s value" % (n, "sleb128" if signed else "uleb128"),
                   "%s decodes a %d-byte encoding to %s; the DEX specification says %s" % (f.qualname, n, show(got)[:220], exp.describe()),
@@ -157,6 +161,11 @@ def _check_writer(ctx, repo, folder, m, f, signed):
         ctx.count("writer_paths")
         value = Bits.source([asg.get(k, k) for k in vbits], signed)
         inst = "%s path %s" % (f.qualname, _vdesc(asg))
+        if not is_exact(out) or isinstance(out, (bytes, bytearray)):
+            if isinstance(out, (bytes, bytearray)):
+                out = BytesV([[(x >> i) & 1 for i in range(8)] for x in out])
+            else:
+                raise AnalysisError("%s: the encoded bytes leave the abstract domain (%s)" % (f.qualname, show(out)[:200]))
         if not isinstance(out, BytesV) or not out.bytes:
             ctx.check("writer-shape", inst, False, f, f.qualname, "%s does not return the packed bytes (%s)" % (f.qualname, show(out)))
             continue
